@@ -12,8 +12,9 @@ from .tyutil import result_parts
 
 PANICKING = {"unwrap", "expect", "unwrap_unchecked", "unwrap_err", "expect_err", "into_ok"}
 SWALLOWING = {"unwrap_or", "unwrap_or_else", "unwrap_or_default", "ok", "err", "is_ok", "is_err",
-              "is_ok_and", "is_err_and", "map_or", "map_or_else", "iter", "iter_mut", "into_iter",
-              "unwrap_or_else"}
+              "is_ok_and", "is_err_and", "map_or", "iter", "iter_mut", "into_iter"}
+# the error is handed to a closure: accepted here, the closure itself is an obligation (must be able to return)
+CLOSURE_HANDLED = {"map_or_else"}
 PASSTHRU = {"map_err", "map", "and_then", "or_else", "and", "or", "inspect", "inspect_err", "as_ref", "as_mut",
             "copied", "cloned", "flatten", "transpose", "as_deref", "as_deref_mut"}
 # combinators that hand the *error* to a closure argument
@@ -78,6 +79,8 @@ class Tracker:
                             violations.append(("panics-on-error:" + name, (bi, si)))
                         elif is_result_method(fn, SWALLOWING):
                             violations.append(("swallows-error:" + name, (bi, si)))
+                        elif is_result_method(fn, CLOSURE_HANDLED):
+                            accepted.append(("handled-by-closure:" + name, (bi, si)))
                         elif is_result_method(fn, PASSTHRU):
                             accepted.append(("combinator:" + name, (bi, si)))
                             # the combinator's own result is followed as part of this value
@@ -140,7 +143,31 @@ class Tracker:
         return None
 
 
-def run_errdisc(facts, rule_name, description, is_external, body_filter=lambda b: True, finding_prefix="ERRDISC"):
+def never_errs(facts, term, depth=2):
+    """The *resolved* callee is a local body that cannot produce Err: it builds no `Result::Err`
+    aggregate and every Result it returns from another call comes from a callee that never errs."""
+    fn = term.get("fn")
+    if not fn:
+        return None
+    cid = fn.get("res") or fn["def"]
+    if fn.get("res_kind") in ("unresolved", "virtual") or cid not in facts.bodies:
+        return None
+    cb = facts.bodies[cid]
+    for bi, si, st in cb.iter_stmts():
+        if st["k"] == "assign" and st["rv"]["k"] == "agg" and st["rv"].get("adt") == "std::result::Result" \
+                and st["rv"].get("variant") == "Err":
+            return None
+    for bi, t in cb.calls():
+        if result_parts(t.get("dty")) is None:
+            continue
+        # a Result obtained from elsewhere may flow to the return value
+        if depth <= 0 or never_errs(facts, t, depth - 1) is None:
+            return None
+    return cb.id
+
+
+def run_errdisc(facts, rule_name, description, is_external, body_filter=lambda b: True, finding_prefix="ERRDISC",
+                exempt_infallible_callee=False):
     """Generic driver.  is_external(err_type_str, body) -> bool."""
     rr = RuleResult(rule_name, description)
     for body in facts.body_list:
@@ -163,6 +190,12 @@ def run_errdisc(facts, rule_name, description, is_external, body_filter=lambda b
             where = body.loc(bi, "term")
             sample = {"function": body.id, "site": where, "callee": callee, "error_type": err_ty}
             dst = t["dst"]
+            if exempt_infallible_callee:
+                ne = never_errs(facts, t)
+                if ne is not None:
+                    rr.ok(dict(sample, verdict="ok", uses=["exempt: resolved callee %s constructs no Err" % ne]),
+                          trivial=True)
+                    continue
             tr = Tracker(facts, body, is_external)
             if dst["p"]:
                 accepted, violations, notes = [("stored-in-place", None)], [], []
